@@ -8,7 +8,7 @@
 //! append budget lasts (only when exactly one node is in state Leader).
 //! Start states: the initial state and every post-partition state
 //! (`default* Isolate(i) default* [Append default*] Heal`).
-//! GOAL = exactly one leader and every value appended since the start state
+//! GOAL = exactly one leader, followed by every other node, and every value appended since the start state
 //! is committed, as the leader's entry, on every node.
 //! Property: every infinite path visits GOAL again and again: the subgraph of
 //! non-GOAL states has no cycle, no state beyond the term cap, and GOAL is
@@ -77,6 +77,10 @@ fn goal(w: &World, base_appends: u8) -> Result<(), &'static str> {
         return Err("several-leaders");
     }
     let l = leaders[0];
+    // "the cluster has elected a leader": every node knows it (Cluster::leader() answers l everywhere)
+    if !(0..N).all(|i| i == l || w.nodes[i].v_state() == (crate::raft::V_FOLLOWER, l as u64)) {
+        return Err("leader-not-followed-by-all");
+    }
     for d in base_appends + 1..=w.appends {
         let Some(le) = w.nodes[l].storage.entries.iter().find(|e| e.data == d) else { return Err("entry-lost-at-leader") };
         for i in 0..N {
@@ -437,9 +441,11 @@ fn analyse(g: &Graph, starts: &[Start]) -> (Cases, u64, u64, u64) {
     let from = |root: u32| starts[root as usize].label();
     let mut goal_entries = 0u64;
     for (id, nd) in g.nodes.iter().enumerate() {
-        if nd.capped && !nd.goal {
+        if nd.capped {
+            // a fault-free run that needs more than `term_slack` new terms has not settled, whatever the
+            // momentary number of leaders
             let (root, stem) = path_to(g, id as u32);
-            cases.push(Case { signature: format!("elections-do-not-settle|{}|from={}", nd.why, from(root)), what: format!("a fault-free schedule from the {} state drives the terms beyond the cap without reaching the goal ({})", from(root), nd.why), root, stem, cycle: vec![], kind: "term-cap" });
+            cases.push(Case { signature: format!("elections-do-not-settle|from={}", from(root)), what: format!("a fault-free schedule from the {} state keeps electing: the terms exceed the start term by more than the cap", from(root)), root, stem, cycle: vec![], kind: "term-cap" });
         }
         for (t, _ev) in &nd.succ {
             if !nd.goal && g.nodes[*t as usize].goal {
@@ -564,7 +570,7 @@ fn replay_case(r: &Value) -> (bool, Vec<String>, Value) {
             }
             closes && unsettled
         }
-        "term-cap" => goal(&w, ba).is_err() && max_term(&w) > start_term + r["term_slack"].as_u64().unwrap_or(5),
+        "term-cap" => max_term(&w) > start_term + r["term_slack"].as_u64().unwrap_or(5),
         _ => engine::machinery_failure("replay file: unknown C30 case kind"),
     };
     (still, log, w.observe())
@@ -627,7 +633,7 @@ pub fn run(args: &Args) -> i32 {
         report.sample(json!({"start": "post-partition", "regime": "FIFO default schedule + bounded reorderings + appends", "prefix": s.base.iter().map(|e| e.to_text()).collect::<Vec<_>>()}));
     }
     report.assume("healthy = every message is delivered before the clock advances; a due process() cannot be postponed past a clock tick; 3 nodes; quantum 500 ms");
-    report.assume("settled = exactly one node in state Leader and every value appended since the start state committed, as the leader's entry, on every node; property = on every infinite fault-free path the cluster is eventually settled forever (no cycle of the graph contains an unsettled state) and no path exceeds the term cap");
+    report.assume("settled = exactly one node in state Leader, every other node in state Follower of it, and every value appended since the start state committed, as the leader's entry, on every node; property = on every infinite fault-free path the cluster is eventually settled forever (no cycle of the graph contains an unsettled state) and no path exceeds the term cap");
     report.assume("the ghost variables are not part of the C30 state; the state additionally records how many client appends preceded the start state and how many reorderings were used");
     report.assume("client appends in the fault-free phase happen only while exactly one node is in state Leader and all others follow it; in the all-orders regime a further append waits until the previous one is committed everywhere");
 
